@@ -22,6 +22,7 @@ import (
 	"io"
 	"math/rand/v2"
 	"net"
+	"sort"
 	"strings"
 	"time"
 
@@ -144,7 +145,6 @@ func frame(t byte, payload []byte) []byte {
 	return b
 }
 
-
 func i16(v int) []byte { b := make([]byte, 2); binary.BigEndian.PutUint16(b, uint16(v)); return b }
 func i32(v int) []byte { b := make([]byte, 4); binary.BigEndian.PutUint32(b, uint32(v)); return b }
 
@@ -196,6 +196,8 @@ var sqlPool = []string{
 type pgGen struct {
 	r      *rand.Rand
 	nextID int64
+	// statements prepared by the current session through well-formed Parse messages: name -> number of parameters
+	prepared map[string]int
 }
 
 func (g *pgGen) id() int64 { g.nextID++; return g.nextID }
@@ -302,7 +304,11 @@ func (g *pgGen) body(kind byte, alter bool) (payload []byte, class string) {
 		case 4:
 			return cat(cstr(g.name()), cstr(q), i16(np), oids(np)[:np*4/2]), "P:oids-truncated"
 		}
-		return cat(cstr(g.name()), cstr(q), i16(np), oids(np)), ""
+		name := g.name()
+		if g.prepared != nil {
+			g.prepared[name] = np
+		}
+		return cat(cstr(name), cstr(q), i16(np), oids(np)), ""
 	case 'B':
 		nf, np, nr := r.IntN(3), r.IntN(5), r.IntN(3)
 		var fmts, params, rfmts []byte
@@ -321,6 +327,32 @@ func (g *pgGen) body(kind byte, alter bool) (payload []byte, class string) {
 			rfmts = append(rfmts, i16(r.IntN(2))...)
 		}
 		portal, stmt := g.name(), g.name()
+		// one Bind in four aims at a statement this session prepared, with fewer values than it has parameters
+		if r.IntN(4) == 0 {
+			var names []string
+			for name, want := range g.prepared {
+				if want > 0 {
+					names = append(names, name)
+				}
+			}
+			sort.Strings(names)
+			if len(names) > 0 {
+				name := names[r.IntN(len(names))]
+				want := g.prepared[name]
+				{
+					stmt, np, params = name, r.IntN(want), nil
+					for i := 0; i < np; i++ {
+						p := g.param()
+						if p == nil {
+							params = append(params, i32(-1)...)
+						} else {
+							params = append(params, cat(i32(len(p)), p)...)
+						}
+					}
+					return cat(cstr(portal), cstr(stmt), i16(nf), fmts, i16(np), params, i16(nr), rfmts), "B:fewer-values-than-parameters"
+				}
+			}
+		}
 		switch pick(8) {
 		case 0:
 			return cat(cstr(portal), cstr(stmt), i16(g.hostileInt(nf)), fmts, i16(np), params, i16(nr), rfmts), "B:format-count"
@@ -574,6 +606,7 @@ func pgsessCase(c *fw.Ctx, data []byte) {
 
 	for sn := 0; sn < sp.Sessions; sn++ {
 		startupVariant := g.r.IntN(10)
+		g.prepared = map[string]int{}
 		p, err := pgDial(e.pgPort)
 		if err != nil {
 			c.Inconclusive(fmt.Sprintf("pgsession case %d: cannot connect: %v", sp.Index, err))
@@ -654,6 +687,35 @@ func pgsessCase(c *fw.Ctx, data []byte) {
 		judged := true
 		nmsgs := 1 + g.r.IntN(12)
 		for m := 0; m < nmsgs; m++ {
+			if loggedIn && !inCopy && g.r.IntN(8) == 0 {
+				// a well-formed Parse of a statement with parameters, then a Bind to it with fewer, as many or more
+				// values than it has parameters (and NULLs among them), Execute, Sync
+				q := []string{"SELECT id FROM t WHERE id = $1", "SELECT id, s FROM t WHERE s = $1 AND n < $2", "INSERT INTO t (id, s, b, n) VALUES ($1, $2, $3, $4)", "UPDATE t SET n = $1 WHERE id = $2"}[g.r.IntN(4)]
+				np := strings.Count(q, "$")
+				name := fmt.Sprintf("ps%d", m)
+				nv := g.r.IntN(np + 2)
+				var vals []byte
+				for i := 0; i < nv; i++ {
+					if pv := g.param(); pv == nil {
+						vals = append(vals, i32(-1)...)
+					} else {
+						vals = append(vals, cat(i32(len(pv)), pv)...)
+					}
+				}
+				p.send(frame('P', cat(cstr(name), cstr(q), i16(0))))
+				p.send(frame('B', cat(cstr(""), cstr(name), i16(0), i16(nv), vals, i16(0))))
+				p.send(frame('E', cat(cstr(""), i32(0))))
+				if err := p.send(frame('S', nil)); err != nil {
+					note("scripted:parse-bind-execute-sync", "send-failed")
+					break
+				}
+				_, how := p.readUntil("Z", 250*time.Millisecond)
+				note(fmt.Sprintf("scripted:parse-bind-execute-sync/values%+d", nv-np), how)
+				if how == "closed" {
+					break
+				}
+				continue
+			}
 			kind := kinds[g.r.IntN(len(kinds))]
 			if inCopy && g.r.IntN(10) < 8 {
 				kind = []byte("dddddcf")[g.r.IntN(7)]
